@@ -2,5 +2,6 @@ open Model
 let () = Driver.main [
   { Driver.name = "st"; run = st_run; judge = st_judge };
   { Driver.name = "ss"; run = ss_run; judge = ss_judge };
+  { Driver.name = "sm"; run = ss_run; judge = ss_judge };
   { Driver.name = "ssr"; run = ss_run; judge = ssr_judge };
 ]
